@@ -53,6 +53,14 @@ CHECKS = {
             "design for all operation sequences in the bound; every recorded history (open/close/adjust/push/pop, windows down to 0, four priority configurations) "
             "must be explainable step by step, with all invariants evaluated in every state.",
             "Interface contract respected by the generator; order among ready streams not asserted for random/priority; trace acceptance uses a high-water mark (-workers 1)."),
+    'C18': ("Hpack.tla (encoder + decoder at representation level, modelled from the code) checked exhaustively by TLC; recorded round-trip histories "
+            "validated as traces; every path of the decoder-only graph replayed with an independent serializer under three segmentations and two string encodings; "
+            "Huffman table proven prefix-free and complete by TLC and compared entry by entry",
+            "TLC decides round trip, table agreement and size bounds for all field/table-size schedules in the bound and the decoder's result for all sequences of "
+            "valid and invalid representations; the real Encoder/Decoder are bound by trace validation (bytes parsed by the harness) and by exhaustive path replay; "
+            "segmentation independence and no-panic are observed on every path.",
+            "Byte serialisation, entry sizes and the RFC tables are harness data; Huffman padding/EOS rules are checked differentially against a bit-level reference decoder "
+            "(not a TLA+ notion); arbitrary byte strings beyond the modelled representation families are not enumerated."),
 }
 
 NOT_YET = {}
